@@ -2350,6 +2350,9 @@ evutil_inet_pton(int af, const char *src, void *dst)
 				if (*src != ':' && src != eow)
 					return 0;
 				++src;
+				/* a single ':' must be followed by another group */
+				if (!dot && src == eow && src[-1] == ':')
+					return 0;
 			} else if (*src == ':' && i > 0 && gapPos==-1) {
 				gapPos = i;
 				++src;
